@@ -111,7 +111,10 @@ def const_expr(r, v, depth=0):
 
 STRINGS = [('"abc"', b"abc"), ('"hello"', b"hello"), ('"ab" nocase', b"aB"), ('"xy" wide', b"x\0y\0"), ('{ 61 62 ?? 64 }', b"abZd"),
            ('{ 41 [1-3] 42 43 }', b"A..BC"), ('/fo+b/', b"foob"), ('"zz" fullword', b" zz "), ('"q"', b"q"), ('"abcd" xor', b"`cbe"),
-           ('{ 01 02 03 04 05 }', b"\1\2\3\4\5"), ('/x[0-9]{2}y/', b"x42y")]
+           ('{ 01 02 03 04 05 }', b"\1\2\3\4\5"), ('/x[0-9]{2}y/', b"x42y"),
+           ('{ 21 22 ?? 24 25 26 ?? 28 }', b"!\"x$%&y("), ('{ 11 12 13 14 ?? 16 17 18 19 }', b"\x11\x12\x13\x14Z\x16\x17\x18\x19"),
+           ('{ 31 ?? 33 34 35 ?? ?? 38 39 3A }', b"1q345rs89:"), ('{ 41 42 [2] 45 46 47 ?? 49 }', b"ABxxEFGyI"),
+           ('{ 61 ?? ?? 64 65 66 67 ?? 69 6A 6B }', b"a..defg.ijk")]
 
 TEMPLATES = [
     ("$a at {0}", 1), ("$a in ({0}..{1})", 2), ("#a == {0}", 1), ("#a in ({0}..{1}) == {2}", 3), ("@a[{0}] == {1}", 2),
@@ -123,10 +126,19 @@ TEMPLATES = [
 ]
 
 
+DIRECTED = [("any of them at {0}", "p2"), ("any of ($a*) in ({0}..{1})", "p2-1,p2+1"), ("2 of them in ({0}..{1})", "p2-2,end"),
+            ("none of them in ({0}..{1})", "p2,p2"), ("1 of ($a,$b) at {0}", "p2"), ("all of ($a*) in ({0}..{1})", "p2,end")]
+
+
 def gen_twin_group(r, gid):
     """returns list of (variant_name, case_line); variant 'base' first"""
     (sa, pa), (sb, pb) = r.sample(STRINGS, 2)
     tmpl, k = r.choice(TEMPLATES)
+    directed = None
+    if r.random() < 0.25:
+        tmpl, what = r.choice(DIRECTED)
+        k = tmpl.count("{")
+        directed = what
     # buffer: plant a and b at chosen offsets
     size = r.randint(0, 40)
     buf = bytearray(r.choice(b"._ 0") for _ in range(size))
@@ -136,6 +148,13 @@ def gen_twin_group(r, gid):
             o = r.randint(0, len(buf) - len(p))
             buf[o:o + len(p)] = p
             offs.append(o)
+    if directed:
+        # the string occurs (at least) twice: the first occurrence lies OUTSIDE the place asked for, a later one inside
+        gap = bytes(r.choice(b"._ ") for _ in range(r.randint(1, 9)))
+        buf = bytearray(gap + pa + gap + pa + bytes(r.choice(b"._") for _ in range(r.randint(0, 6))) + (pb if r.random() < 0.5 else b""))
+        p2 = len(gap) + len(pa) + len(gap)
+        env = {"p2": p2, "p2-1": max(0, p2 - 1), "p2+1": p2 + 1, "p2-2": max(0, p2 - 2), "end": len(buf)}
+        offs = [len(gap), p2]
     pool = offs + [0, 1, 2, 3, len(buf), max(0, len(buf) - 1), len(pa), len(pb), 50, 100]
     vals = []
     for i in range(k):
@@ -144,6 +163,8 @@ def gen_twin_group(r, gid):
         vals.append(v)
     if "%" in tmpl and r.random() < 0.8:
         vals[0] = r.choice([1, 50, 100, 51, 99])
+    if directed:
+        vals = [env[x] for x in directed.split(",")]
 
     def rule(cond):
         return "rule t { strings: $a = %s $b = %s condition: %s }" % (sa, sb, cond)
@@ -188,8 +209,8 @@ def verdicts(line):
 
 def run(tier, replay=None):
     chk = core.Check("C12", tier)
-    tr = core.run_translators(["fold", "vmops"])
-    lres = core.lean_check(THM)
+    lres = core.lean_check(THM, translators=["fold", "vmops"])
+    tr = lres.get("translators")
     core.proof_coverage(chk, lres, THM, tr)
     bp = core.build("plain", harness=["h_fold"])
     ba = core.build("asan", harness=["h_scan"])
